@@ -444,10 +444,16 @@ static struct precalc_s {
 	 * to the S slot, so 59 seconds plus a leap second != 1 minute */
 	with (int64_t S = __strf_tot_secs(dur), d = __strf_tot_days(dur)) {
 		us = d * (int)SECS_PER_DAY + S;
-		res.neg = dur.neg || us < 0 ||
-			/* nothing but leap seconds, negative ones */
-			(!us && dur.durtyp == DT_DURS && dur.tai && dur.corr < 0);
-		us = us >= 0 ? us : -us;
+		if (dur.durtyp == DT_DURS && dur.tai) {
+			/* the sign is the one of the real duration, which
+			 * is CORR twice away from US, when there is nothing
+			 * but leap seconds US can be of the other sign */
+			res.neg = us + 2 * dur.corr < 0;
+			us = !res.neg ? us : -us;
+		} else {
+			res.neg = dur.neg || us < 0;
+			us = us >= 0 ? us : -us;
+		}
 	}
 
 	if (f.has_week) {
